@@ -1,7 +1,7 @@
 (* DecProofs.v — what the decoders accept (C05), what re-encoding an accepted
    message yields (C09), decode histories (C19). *)
 From Coq Require Import Ascii String ZArith List Lia Bool Arith ZifyBool.
-From GoCose Require Import Bytes Cbor CborProofs Res GoVal Obs Fx Headers Enc Dec Msg Run TbsProofs.
+From GoCose Require Import Bytes Cbor CborProofs Res GoVal Obs Fx Headers Enc Dec Msg Run TbsProofs FlowProofs.
 From GoCose.Gen Require Import Generated.
 Import ListNotations.
 Open Scope Z_scope.
@@ -314,4 +314,107 @@ Proof.
   intros datas dest d v Hd Hr. cbn [fold_left]. unfold step_dest at 2. rewrite Hd.
   induction Hr as [|x l [e Hx] Hl IH]; cbn [fold_left]; auto.
   rewrite (history_atomic k v x e Hx). exact IH.
+Qed.
+
+(* ---------- the converse of C05 for COSE_Sign1 (C07): every spelling of a
+   conforming message is accepted, whatever head widths the sender chose for
+   payload, signature and the protected bstr, and the decoded fields are the
+   sender's ---------- *)
+Theorem sign1_conforming_accepted p u pl sg h payload b w :
+  wf (WArr W0 [p; u; pl; sg]) = true ->
+  depth_ok false (WArr W0 [p; u; pl; sg]) 0 = true ->       (* no tags, library limits *)
+  bstr_or_nil pl = Acc payload ->                          (* payload: bstr (any head width) or nil *)
+  sg = WStr false w b -> b <> [] ->                        (* signature: non-empty bstr, any head width *)
+  dec_headers p u = Acc h ->                               (* both buckets conform *)
+  unmarshal_sign1 (210 :: ser (WArr W0 [p; u; pl; sg])) = Acc (mkS1 h payload (Some b)) /\
+  unmarshal_sign1_untagged (ser (WArr W0 [p; u; pl; sg])) = Acc (mkS1 h payload (Some b)).
+Proof.
+  intros Hwf Hd Hpl -> Hb Hh.
+  assert (L : lib_wf false (ser (WArr W0 [p; u; pl; WStr false w b])) = Some (WArr W0 [p; u; pl; WStr false w b])).
+  { unfold lib_wf. rewrite parse_full_ser by auto. rewrite Hd. reflexivity. }
+  assert (A : dec_sign1_arr (WArr W0 [p; u; pl; WStr false w b]) = Acc (mkS1 h payload (Some b))).
+  { unfold dec_sign1_arr. rewrite Hpl. cbn [bind bstr_or_nil].
+    replace (glen (Some b) =? 0) with false.
+    - rewrite Hh. reflexivity.
+    - symmetry. cbn. destruct b; [contradiction|]. rewrite len_cons. pose proof (len_nonneg b). lia. }
+  assert (S : ser (WArr W0 [p; u; pl; WStr false w b]) = 132 :: flat_map ser [p; u; pl; WStr false w b]) by reflexivity.
+  split.
+  - unfold unmarshal_sign1. rewrite S. cbn [v_sign1MessagePrefix has_prefix Z.eqb Pos.eqb andb negb tl].
+    rewrite <- S, L. exact A.
+  - unfold unmarshal_sign1_untagged. rewrite S. cbn [v_sign1MessagePrefix nth Z.eqb Pos.eqb negb].
+    rewrite <- S, L. exact A.
+Qed.
+
+(* ... and what is then verified is the RFC structure over the sender's own protected bytes *)
+Corollary sign1_conforming_verifies p u pl sg h payload b w ext vf c wp :
+  wf (WArr W0 [p; u; pl; sg]) = true -> depth_ok false (WArr W0 [p; u; pl; sg]) 0 = true ->
+  bstr_or_nil pl = Acc (Some payload) -> sg = WStr false w b -> b <> [] -> dec_headers p u = Acc h ->
+  p = WStr false wp c ->
+  ensure_verification_alg h (vf_alg vf) ext = Acc tt ->
+  vf_run vf (ser (sig1_tree "Signature1" c (gor ext) payload)) (Some b) = Acc tt ->
+  fst (sign1_verify (mkS1 h (Some payload) (Some b)) ext vf) = Acc tt.
+Proof.
+  intros Hwf Hd Hpl Hsg Hb Hh Hp Hg Hv.
+  apply sign1_verify_iff. cbn [s1_payload s1_sig s1_h].
+  split; [eauto|]. split; [cbn; destruct b; [contradiction|rewrite len_cons; pose proof (len_nonneg b); lia]|].
+  split; auto.
+  apply dec_headers_inv in Hh as (pm & um & -> & _).
+  exists (ser (sig1_tree "Signature1" c (gor ext) payload)). split; auto.
+  unfold tbs_sign1, marshal_protected. cbn [rawP glen gor].
+  pose proof (ser_nonempty p). replace (0 <? len (ser p)) with true by (unfold len; lia). cbn [bind].
+  subst p. cbn [wf forallb] in Hwf. apply andb_true_iff in Hwf as [_ Hwf]. apply andb_true_iff in Hwf as [Hwp _].
+  cbn [wf] in Hwp. apply andb_true_iff in Hwp as [Hf Hok].
+  rewrite det_bstr_any_width by auto. cbn [bind]. cbn [sig1_tree ser flat_map]. rewrite app_nil_r. reflexivity.
+Qed.
+
+(* ---------- COSE_Sign (C05) ---------- *)
+Theorem unmarshal_signmsg_wellformed data m :
+  unmarshal_signmsg data = Acc m ->
+  exists p u pl ws items,
+    data = 216 :: 98 :: ser (WArr W0 [p; u; pl; WArr ws items]) /\
+    wf (WArr W0 [p; u; pl; WArr ws items]) = true /\
+    notags (WArr W0 [p; u; pl; WArr ws items]) = true /\
+    bstr_or_nil pl = Acc (sm_payload m) /\ items <> [] /\
+    dec_headers p u = Acc (sm_h m) /\
+    exists sigs, mapM dec_signature_item items = Acc sigs /\ sm_sigs m = map Some sigs.
+Proof.
+  unfold unmarshal_signmsg. destruct (has_prefix v_signMessagePrefix data) eqn:HP; cbn [negb]; [|discriminate].
+  assert (Hd : exists rest, data = 216 :: 98 :: rest).
+  { unfold v_signMessagePrefix in HP. destruct data as [|a [|b rest]]; try discriminate.
+    - cbn in HP. rewrite andb_false_r in HP. discriminate.
+    - cbn [has_prefix] in HP. apply andb_true_iff in HP as [Ha HP]. apply andb_true_iff in HP as [Hb _].
+      exists rest. f_equal; [lia|f_equal; lia]. }
+  destruct Hd as [rest ->]. cbn [tl].
+  destruct (lib_wf false rest) as [x|] eqn:L; [|discriminate].
+  apply lib_wf_inv in L as (E & Hwf & Hdp).
+  destruct x; try discriminate. destruct w; try discriminate.
+  destruct l as [|p [|u [|pl [|sgs [|? ?]]]]]; try discriminate.
+  destruct (bstr_or_nil pl) as [payload| | |] eqn:B; cbn [bind]; try discriminate.
+  destruct sgs as [| |ws items| | |wsim v]; cbn [bind]; try discriminate.
+  - destruct items as [|i0 items']; [discriminate|].
+    destruct (mapM dec_signature_item (i0 :: items')) as [sigs| | |] eqn:Ms; cbn [bind]; try discriminate.
+    destruct (dec_headers p u) as [h| | |] eqn:Hh; cbn [bind]; try discriminate.
+    intros H; inversion H; subst. exists p, u, pl, ws, (i0 :: items'). cbn [sm_payload sm_h sm_sigs].
+    split; [reflexivity|]. split; auto. split; [eapply depth_ok_notags; eauto|]. split; auto.
+    split; [discriminate|]. split; auto. exists sigs. auto.
+  - destruct wsim; try discriminate. destruct v as [|v|v]; try discriminate.
+    do 5 (destruct v as [v|v|]; try discriminate).
+Qed.
+
+(* ---------- re-encoding COSE_Signature / COSE_Countersignature (C09) ---------- *)
+Theorem signature_reencode data s :
+  unmarshal_signature data = Acc s ->
+  exists p u sg,
+    data = 131 :: ser p ++ ser u ++ ser sg /\
+    marshal_signature s = Acc (131 :: ser p ++ ser u ++ renorm_field sg).
+Proof.
+  intros H. apply unmarshal_signature_wellformed in H as (p & u & sg & E & Hwf & _ & B & G & Hh).
+  exists p, u, sg. split.
+  - rewrite E. cbn [ser flat_map]. rewrite app_nil_r. reflexivity.
+  - apply dec_headers_inv in Hh as (pm & um & Hh & _ & _ & _ & Hiv).
+    unfold marshal_signature. replace (glen (sg_sig s) =? 0) with false by (symmetry; lia).
+    rewrite Hh in *. rewrite (headers_marshal_decoded _ _ _ _ Hiv). cbn [bind fst snd].
+    apply bstr_or_nil_inv in B as [[-> Hn]|(w & b & -> & Hs)].
+    + rewrite Hn in G. cbn in G. lia.
+    + rewrite Hs. reflexivity.
 Qed.
